@@ -390,8 +390,11 @@ async fn step_async(cx: &Ctx<'_>, root: usize, ops: &[Op], h: &[usize], path: &P
                                         ok = false;
                                     }
                                     accepted.push((*r, class(&results[i].result) == "Valid"));
+                                    if !ok {
+                                        break; // later requests of the batch would only echo the first deviation
+                                    }
                                 }
-                                ok &= judge_state(cx, "batch_update", &accepted, &before, &after, &before_full, &after_full, &wit);
+                                ok = ok && judge_state(cx, "batch_update", &accepted, &before, &after, &before_full, &after_full, &wit);
                             }
                         }
                     }
@@ -601,18 +604,6 @@ fn main() {
     let root_dir = PathBuf::from(format!("/dev/shm/vh-c12-{}", std::process::id()));
     let _ = std::fs::remove_dir_all(&root_dir);
 
-    if std::env::var("VH_C12_BENCH").is_ok() {
-        let cx = Ctx { run: &run, distinct: &distinct, root_dir: root_dir.clone() };
-        let ops = vec![Op::V(Req { p: 0, s: 1, h: 1, off: 0 }), Op::V(Req { p: 0, s: 2, h: 1, off: 0 }), Op::SyncReload, Op::Cleanup];
-        for h in [vec![], vec![0], vec![0, 1, 3], vec![0, 2], vec![0, 2, 1]] {
-            let t = std::time::Instant::now();
-            for _ in 0..5000 {
-                step(&cx, 0, &ops, &h);
-            }
-            eprintln!("bench {h:?}: {:.1} us/step", t.elapsed().as_secs_f64() * 1e6 / 5000.0);
-        }
-        std::process::exit(0);
-    }
     // ---- Part 2 first (small, bounded): loom bodies in child processes
     let loom = run_loom(&run, "C12", run.tier.pick(40, 900));
     if !loom.incomplete.is_empty() {
